@@ -79,7 +79,7 @@ class C07(Check):
                    'EPD / F-number / NA apertures, angular fields, radial apertures']
 
     def budget(self, tier):
-        return (100, 8) if tier == 'quick' else (2500, 16)
+        return (250, 8) if tier == 'quick' else (2500, 16)
 
     def strategy(self, tier):
         rb = ray_bundle()
@@ -247,7 +247,20 @@ class C07(Check):
         o, o2 = build(spec), build(tw)
         w = spec['wls'][case['wl'] % len(spec['wls'])]
         a = trace(o, case['rays'], w)
-        b = trace(o2, case['rays'], w)
+        # the relation holds for rays that cross the dummy's plane between the two surfaces; a ray that meets the next
+        # surface before that plane (far outside the design aperture of a deeply curved surface) is a different ray path
+        zp = sum(q['t'] for q in spec['surfs'][:i]) + t1
+        za, zb, Na = a['z'][i + 1], a['z'][i + 2], a['N'][i + 1]
+        with np.errstate(all='ignore'):
+            crosses = ((zp - za) * np.sign(Na) >= 0) & ((zb - zp) * np.sign(Na) >= 0)
+        crosses = crosses | ~np.isfinite(za) | ~np.isfinite(zb)
+        rays = [r for r, c in zip(case['rays'], crosses) if c]
+        if len(rays) < len(case['rays']):
+            out.cls('ray_meets_next_surface_before_dummy_plane')
+        if not rays:
+            return
+        a = trace(o, rays, w)
+        b = trace(o2, rays, w)
         rows_a = list(range(K + 2))
         rows_b = [r for r in range(K + 3) if r != i + 2]
         if spec['obj']['t'] == GL.INF:
@@ -330,7 +343,8 @@ class C07(Check):
         o.scale_system(s)
         o2 = build(tw)
         d1, d2 = o.to_dict(), o2.to_dict()
-        diff = dict_close(d1, d2, 1e-12)
+        Lsc = max(1.0, sum(abs(q['t']) for q in spec['surfs']))
+        diff = dict_close(d1, d2, 1e-12, pos_atol=1e-13 * Lsc * s)
         out.expect('scale_system_produces_the_scaled_prescription', diff is None, diff=diff, s=s)
         w = spec['wls'][case['wl'] % len(spec['wls'])]
         a = trace(o, case['rays'], w)
@@ -343,12 +357,14 @@ class C07(Check):
         out.nt(s < 0.5 or s > 2.0)
 
 
-def dict_close(a, b, rtol, path=''):
+def dict_close(a, b, rtol, path='', pos_atol=0.0):
+    """pos_atol: absolute allowance for vertex positions (.../cs/x|y|z), which are sums of thicknesses and can be
+    tiny residues of large cancelling terms"""
     if isinstance(a, dict) and isinstance(b, dict):
         if set(a) != set(b):
             return path + ' keys differ'
         for k in a:
-            r = dict_close(a[k], b[k], rtol, path + '/' + str(k))
+            r = dict_close(a[k], b[k], rtol, path + '/' + str(k), pos_atol)
             if r:
                 return r
         return None
@@ -356,7 +372,7 @@ def dict_close(a, b, rtol, path=''):
         if len(a) != len(b):
             return path + ' length'
         for i, (x, y) in enumerate(zip(a, b)):
-            r = dict_close(x, y, rtol, path + '/%d' % i)
+            r = dict_close(x, y, rtol, path + '/%d' % i, pos_atol)
             if r:
                 return r
         return None
@@ -367,9 +383,11 @@ def dict_close(a, b, rtol, path=''):
             return None
         if math.isfinite(a) and math.isfinite(b) and abs(a - b) <= rtol * max(abs(a), abs(b)) + 1e-300:
             return None
+        if pos_atol and path[-5:] in ('/cs/x', '/cs/y', '/cs/z') and abs(a - b) <= pos_atol:
+            return None
         return path + ' %r != %r' % (a, b)
     if isinstance(a, np.ndarray) or isinstance(b, np.ndarray):
-        return dict_close(np.asarray(a).tolist(), np.asarray(b).tolist(), rtol, path)
+        return dict_close(np.asarray(a).tolist(), np.asarray(b).tolist(), rtol, path, pos_atol)
     return None if a == b else path + ' %r != %r' % (a, b)
 
 
